@@ -5,7 +5,11 @@
   dispatches to).  `Val β` is polymorphic in the payload β of bindable data; SQL text is `List Seg` (no β).
 -/
 import GormModel.Lemmas.Bind
+import GormModel.Lemmas.BindAligned
+import GormModel.Lemmas.BindRetemplate
+import GormModel.Model.BindJoin
 import GormModel.Gen.Misc
+import GormModel.Gen.BindSites
 namespace Gorm
 open Gorm.Bind
 
@@ -96,6 +100,225 @@ example :
       ∧ Aligned st ∧ st.vars.length = 12 := by
   decide
 
+/-! ### the other half of the property, PROVED: one placeholder per bound value, in order, slices expanded
+
+Specification: `Model/BindSpec.lean` — `WellFormed d v` (decidable) and `flatten d v`, both projections of one
+structural traversal `spec d v` that has no builder state and no fuel.
+Invariant: `Lemmas/BindAligned.lean` — `Step o st xs`, preserved by every primitive and every builder. -/
+
+/-- **Builder invariant, every arm of `AddVar` and every clause builder it dispatches to** (Expr.Build,
+    NamedExpr.Build, Eq/Neq/…/IN, Values, Set, Limit, OnConflict, Where members, Clause.Build, Statement.Build, both
+    sub-query branches), both dialects, ANY start state `st` (e.g. the outer statement with `p` vars already bound),
+    any fuel above the nesting depth of the value (fuel adequacy): a well-formed value
+      * appends exactly `flatten d v` to `stmt.Vars`,
+      * writes exactly the placeholders numbered `len(Vars)+1, …, len(Vars)+k` (k = number of appended values), in
+        that order, after the placeholders already written,
+      * never runs out of fuel and never leaves the model. -/
+theorem C01_step {β : Type} (d : Dialect) (n : Nat) (v : Val β) (st : St β)
+    (hfuel : v.depth < n) (hwf : WellFormed d v) :
+    (addVar d n v st).vars = st.vars ++ flatten d v ∧
+    phs (addVar d n v st).segs = phs st.segs ++ List.range' (st.vars.length + 1) (flatten d v).length ∧
+    (addVar d n v st).oof = st.oof ∧ (addVar d n v st).unsupported = st.unsupported :=
+  let h := Bind.addVar_step d n v hfuel hwf st
+  ⟨h.vars_eq, h.phs_eq, h.oof_eq, h.uns_eq⟩
+
+/-- the invariant `Aligned` is preserved by `AddVar` of a well-formed value from every aligned state -/
+theorem C01_addVar_aligned {β : Type} (d : Dialect) (n : Nat) (v : Val β) (st : St β)
+    (hfuel : v.depth < n) (hwf : WellFormed d v) (h : Aligned st) : Aligned (addVar d n v st) :=
+  (Bind.addVar_step d n v hfuel hwf st).aligned h
+
+/-- **fuel adequacy**: `render` (fuel = depth + 1) never exhausts its fuel on a well-formed value, and more fuel
+    changes nothing that the property speaks about -/
+theorem C01_fuel_adequate {β : Type} (d : Dialect) (v : Val β) (hwf : WellFormed d v) :
+    (render d v).oof = false ∧ (render d v).unsupported = false ∧
+    ∀ n, v.depth < n → (addVar d n v {}).vars = (render d v).vars ∧ phs (addVar d n v {}).segs = phs (render d v).segs := by
+  have h := Bind.addVar_step d (v.depth + 1) v (Nat.lt_succ_self _) hwf {}
+  refine ⟨h.oof_eq, h.uns_eq, fun n hn => ?_⟩
+  have h' := Bind.addVar_step d n v hn hwf {}
+  exact ⟨h'.vars_eq.trans h.vars_eq.symm, h'.phs_eq.trans h.phs_eq.symm⟩
+
+/-- **C01, alignment**: for every well-formed input and both dialects the placeholder segments of the output, read
+    left to right, are exactly `ph 1, ph 2, …, ph n` with `n = len(Vars)` (`ph k` is printed `?` resp. `$k`). -/
+theorem C01_aligned {β : Type} (d : Dialect) (v : Val β) (hwf : WellFormed d v) : Aligned (render d v) :=
+  C01_addVar_aligned d _ v {} (Nat.lt_succ_self _) hwf (show phs ([] : List Seg) = List.range' 1 0 from rfl)
+
+/-- what `concretize` prints for the k-th placeholder -/
+theorem C01_placeholder_text (k : Nat) :
+    segText .qmark (.ph k) = ['?'] ∧ segText .dollar (.ph k) = '$' :: Nat.toDigits 10 k := ⟨rfl, rfl⟩
+
+/-- **C01, expansion**: the bound values are exactly the specified flattening (scalar ↦ 1; non-empty list ↦ one per
+    element; empty list ↦ none (text `(NULL)`), resp. one nil in a `?` slot directly after `(`; []byte / Valuer ↦ 1;
+    nested Expr ↦ its own flattening in place; sub-query ↦ its vars in place) -/
+theorem C01_expansion {β : Type} (d : Dialect) (v : Val β) (hwf : WellFormed d v) :
+    (render d v).vars = flatten d v := by
+  have h := Bind.addVar_step d (v.depth + 1) v (Nat.lt_succ_self _) hwf {}
+  show (addVar d (v.depth + 1) v {}).vars = (spec d v).xs
+  simpa using h.vars_eq
+
+/-- the equations of `flatten` a reader expects (all by `rfl`/`simp` from the definition of `spec`) -/
+theorem C01_flatten_equations {β : Type} (d : Dialect) (b : β) (s : Bool) (x y : Val β) (bs : List β) :
+    flatten d (.scalar b) = [.scalar b] ∧
+    flatten d (.list s [x, y]) = flatten d x ++ flatten d y ∧
+    flatten d (.list s ([] : List (Val β))) = [] ∧
+    flatten d (.ilist [x, y]) = flatten d x ++ flatten d y ∧
+    flatten d (.bytes false bs) = [.bytes false bs] ∧
+    flatten d (.dvaluer false b) = [.dvaluer false b] ∧
+    flatten d (.expr "a = ? AND b IN ?".toList [x, y] false) = flatten d x ++ flatten d y ∧
+    flatten d (.expr "a IN (?)".toList [.list s [x, y]] false) = flatten d x ++ flatten d y ∧
+    flatten d (.expr "a IN (?)".toList [.list s ([] : List (Val β))] false) = [.nil] ∧
+    flatten d (.subq ["SELECT".toList, "WHERE".toList] [x, y]) = flatten d x ++ flatten d y := by
+  simp [flatten, spec, annot, catSnd, Sp.cat, Sp.app, Sp.one, Sp.none, slotFlags, pickSlots, expandSp]
+
+/-! ### sub-query re-numbering under `$n` -/
+
+/-- **The textual re-templating loop is exact on aligned text.**  `AddVar case *DB` (rendered branch) and
+    `genJoinClause` turn the dialect placeholders of a privately rendered text back into `?` with
+    `for i { sql = strings.Replace(sql, "$i", "?", 1) }`.  The prefix problem — `$1` is a prefix of `$10`, `$11`, … —
+    does NOT arise when the rendering is aligned (numbers increase left to right: `phs segs = i, i+1, …`) and the
+    literal text contains no `$`: when the loop looks for `$i`, every earlier placeholder is already `?`, so the first
+    `$` of the remaining text is the placeholder `$i` itself.  No bound on the number of placeholders. -/
+theorem C01_retemplate (segs : List Seg) (k : Nat) (hnd : NoDollar segs) (hal : phs segs = List.range' 1 k) :
+    retemplate .dollar 1 k (concretize .dollar segs) = concretize .qmark segs :=
+  Bind.retemplate_aligned' segs k hnd hal
+
+/-- under `?` the loop is the identity -/
+theorem C01_retemplate_qmark (i k : Nat) (s : List Char) : retemplate .qmark i k s = s := Bind.retemplate_qmark i k s
+
+/-- the hypothesis "no `$` in the literal text" is needed: a `$` inside a string literal of the raw sub-query is hit
+    by the loop through exactly the prefix problem (`$1` matches the head of the literal `'$100'`), the literal is
+    rewritten and the real placeholder keeps its INNER number.  (Caller-supplied SQL text containing placeholder
+    syntax of the dialect — like a `?` inside a literal under the `?` dialect — is excluded as ill-formed.) -/
+theorem C01_retemplate_dollar_literal_counterexample :
+    String.ofList (retemplate .dollar 1 1 (concretize .dollar [.lit "label = '$100' AND age > ".toList, .ph 1]))
+      = "label = '?00' AND age > $1" := Bind.retemplate_dollar_literal_counterexample
+
+/-- hence embedding an ALIGNED `$n` rendering as a sub-query IS building `clause.Expr{SQL: <the same text with ?>,
+    Vars: vars}` (resp. `NamedExpr` when the text contains `@`) at the current position of the outer statement:
+    same output for every state and fuel, same specification (`hqd`: no placeholder of the rendering is directly
+    followed by a digit in the literal text) -/
+theorem C01_subquery_is_expr {β : Type} (segs : List Seg) (vars : List (Val β))
+    (hnd : NoDollar segs) (hal : phs segs = List.range' 1 vars.length)
+    (hqd : qDigit (concretize .qmark segs) = false) (n : Nat) (st : St β) :
+    let t := concretize .qmark segs
+    let e : Val β := if containsSub t ['@'] then .nexpr t vars else .expr t vars false
+    addVar .dollar (n + 1) (.rsub (concretize .dollar segs) vars) st = addVar .dollar (n + 1) e st ∧
+    spec .dollar (.rsub (concretize .dollar segs) vars) = spec .dollar e := by
+  have hq : (concretize .qmark segs).contains '$' = false := by
+    have := Bind.noDollar_concretize_qmark segs hnd
+    simpa using this
+  simp only [addVar, spec, C01_retemplate segs vars.length hnd hal, hq, hqd]
+  split <;> simp [addVar, spec]
+
+/-- **C01, sub-query re-numbering** (both branches of `AddVar case *DB`, stated for `$n`): embedding a well-formed
+    sub-query — a chain (`subq`) or an already rendered `Raw` (`rsub`) — whose flattening has `k` values after `p`
+    outer vars yields exactly the placeholders `$p+1 … $p+k`, in order, and appends its values in place. -/
+theorem C01_subquery_renumber {β : Type} (n : Nat) (sub : Val β) (st : St β) (hfuel : sub.depth < n)
+    (hwf : WellFormed .dollar sub) :
+    phs (addVar .dollar n sub st).segs
+        = phs st.segs ++ List.range' (st.vars.length + 1) (flatten .dollar sub).length ∧
+    (addVar .dollar n sub st).vars = st.vars ++ flatten .dollar sub :=
+  let h := Bind.addVar_step .dollar n sub hfuel hwf st
+  ⟨h.phs_eq, h.vars_eq⟩
+
+/-- FINDING F26 (kernel-checked witness, replayed on the real code by the harness):
+    `db.Where("outer_col = ?", o).Where("id IN (?)", db.Raw("SELECT id FROM t WHERE label = '$100' AND age > ?", a))` under
+    a `$n` dialect.  The sub-query was rendered on its own as `… label = '$100' AND age > $1`; the re-templating loop of
+    `AddVar case *DB` looks for `$1` and hits the head of the literal `'$100'` (the prefix problem); the `?` it leaves there
+    is then bound as the sub-query's value, the real placeholder keeps its INNER number: the statement reaches the driver
+    with the literal rewritten to `'$200'`, `$1` twice and `$2` never, for two bound values.  `WellFormed` excludes exactly
+    this (a `$` left over after re-templating); without an outer value the round trip is accidentally the identity. -/
+theorem C01_dollar_literal_counterexample :
+    let sub : Val String := .rsub "SELECT id FROM t WHERE label = '$100' AND age > $1".toList [.scalar "7"]
+    let st := render .dollar (Val.whereC [.expr "outer_col = ?".toList [.scalar "o"] false, .expr "id IN (?)".toList [sub] false])
+    String.ofList (concretize .dollar st.segs)
+        = "outer_col = $1 AND id IN (SELECT id FROM t WHERE label = '$200' AND age > $1)" ∧
+      st.vars.map Val.payload? = [some "o", some "7"] ∧ ¬ WellFormed .dollar sub ∧
+      String.ofList (concretize .dollar (render .dollar (Val.whereC [.expr "id IN (?)".toList [sub] false])).segs)
+        = "id IN (SELECT id FROM t WHERE label = '$100' AND age > $1)" := by
+  decide
+
+/-- **relation-join ON handles** (callbacks/query.go genJoinClause, model `joinOnExpr`): the ON conditions are rendered
+    on a private statement, re-templated by the same textual loop and re-bound as `clause.Expr{SQL: onSQL, Vars: vars}`.
+    For well-formed conditions the private rendering is aligned (`C01_aligned`), so under `$n` the loop is exact
+    (`C01_retemplate`): the re-bound expression carries the SAME text with `?` for every placeholder, and the privately
+    bound values in order — for any number of values (`$1`/`$10` prefixes included). -/
+theorem C01_join_on_retemplate {β : Type} (on : List (Val β)) (hwf : WellFormed .dollar (.whereC on))
+    (hnd : NoDollar (render .dollar (.whereC on)).segs) :
+    joinOnExpr .dollar on =
+      (if (concretize .dollar (render .dollar (.whereC on)).segs).isEmpty then none
+       else some (.expr (concretize .qmark (render .dollar (.whereC on)).segs) (render .dollar (.whereC on)).vars false)) := by
+  have hal : phs (render .dollar (Val.whereC on)).segs = List.range' 1 (render .dollar (Val.whereC on)).vars.length :=
+    C01_aligned .dollar (.whereC on) hwf
+  simp only [joinOnExpr, C01_retemplate _ _ hnd hal]
+
+-- a join ON handle with 11 values under `$n`, after one outer SELECT value and before one outer WHERE value
+set_option maxRecDepth 16384 in
+example :
+    let on : List (Val String) := [.expr "Company.name <> ? AND Company.id IN ?".toList [.scalar "n", .list true ((List.range 10).map fun i => .scalar (toString i))] false]
+    let v := joinStmt .dollar (.expr "SELECT ? FROM u JOIN c".toList [.scalar "s"] false) [.cmp .eq (.column "u".toList "cid".toList [] false) (.column "c".toList "id".toList [] false)] on [.cmp .gt (.column [] "age".toList [] false) (.scalar "18")]
+    WellFormed .dollar v ∧ Aligned (render .dollar v) ∧ (render .dollar v).vars.length = 13 ∧
+    String.ofList (concretize .dollar (render .dollar v).segs)
+      = "SELECT $1 FROM u JOIN c ON `u`.`cid` = `c`.`id` AND (Company.name <> $2 AND Company.id IN ($3,$4,$5,$6,$7,$8,$9,$10,$11,$12)) WHERE `age` > $13" := by
+  decide
+
+/-! ### non-vacuity of `WellFormed`, and what it excludes -/
+
+/-- a template with a nested Expr, a slice after `(`, an empty slice after `(`, an empty slice in plain position, a
+    []byte, a nil pointer Valuer, a chain sub-query with its own values, a rendered `$n` sub-query with 11 values
+    (so `$1`/`$10`/`$11` occur): well formed under both dialects; 6 + 3 + 11 = 20 bound values -/
+def c01Witness (d : Dialect) : Val String :=
+  let inner : Val String := .expr "SELECT id FROM t WHERE age IN ?".toList [.list true ((List.range 11).map fun i => .scalar (toString i))] false
+  let r := render d inner
+  .expr "a = ? AND b IN (?) AND c IN (?) AND d IN ? AND e = ? AND f = ? AND g IN (?) AND h IN (?)".toList
+    [ .expr "lower(?)".toList [.scalar "x'); DROP--"] false,
+      .list true [.scalar "p", .scalar "?"],
+      .list false [],
+      .ilist [],
+      .bytes false ["b1", "b2"],
+      .gvaluer true .nil,
+      .subq ["SELECT id FROM u WHERE".toList] [.whereC [.cmp .eq (.column [] "n".toList [] false) (.scalar "@n"), .inn false (.column [] "k".toList [] false) [.scalar "k1", .scalar "k2"]]],
+      .rsub (concretize d r.segs) r.vars ] false
+
+example : WellFormed .qmark (c01Witness .qmark) ∧ WellFormed .dollar (c01Witness .dollar) := by decide
+
+set_option maxRecDepth 16384 in
+example : (flatten .dollar (c01Witness .dollar)).length = 20 ∧ (render .dollar (c01Witness .dollar)).vars.length = 20 ∧
+    phs (render .dollar (c01Witness .dollar)).segs = List.range' 1 20 := by decide
+
+set_option maxRecDepth 16384 in
+example : String.ofList (concretize .dollar (render .dollar (c01Witness .dollar)).segs)
+    = "a = lower($1) AND b IN ($2,$3) AND c IN ($4) AND d IN (NULL) AND e = $5 AND f = $6 AND g IN (SELECT id FROM u WHERE `n` = $7 AND `k` IN ($8,$9)) AND h IN (SELECT id FROM t WHERE age IN ($10,$11,$12,$13,$14,$15,$16,$17,$18,$19,$20))" := by
+  decide
+
+/-- named arguments given as sql.Named, map and struct (with an embedded struct), values that are slices; a
+    positional argument in the same template; `$n` -/
+example :
+    let v : Val String := .nexpr "name = @Name AND age > ? AND id IN @ids AND z IN (@Zs) AND w = @Inner".toList
+      [ .scalar "18", .named "ids".toList (.list true [.scalar "1", .scalar "2"]),
+        .nmap ["Zs".toList] [.list true [.scalar "z1"]],
+        .strct [("Name".toList, false), ("Emb".toList, true)] [.scalar "n", .strct [("Inner".toList, false)] [.scalar "w"]] ]
+    WellFormed .dollar v ∧ (flatten .dollar v).map Val.payload? = [some "n", some "18", some "1", some "2", some "z1", some "w"] ∧
+    String.ofList (concretize .dollar (render .dollar v).segs)
+      = "name = $1 AND age > $2 AND id IN ($3,$4) AND z IN (($5)) AND w = $6" := by decide
+
+/-- FINDING F21 is exactly what `WellFormed` excludes: the witness of `C01_named_slot_counterexample` is not well
+    formed (a `sql.NamedArg` in a positional slot), under either route (Expr because the text has `?`; NamedExpr as
+    `db.Raw` would route it) -/
+theorem C01_named_slot_illformed :
+    let args : List (Val String) := [.named "n".toList (.scalar "x"), .scalar "5"]
+    ¬ WellFormed .qmark (Val.whereC ((buildCondStr false "name = @n AND age = ?".toList args).getD [])) ∧
+    ¬ WellFormed .qmark (Val.nexpr "name = @n AND age = ?".toList args) ∧
+    WellFormed .qmark (Val.nexpr "age = ? AND name = @n".toList [.scalar "5", .named "n".toList (.scalar "x")]) := by
+  decide
+
+/-- arity is needed: a surplus argument is appended without placeholder, a surplus `?` stays in the text -/
+theorem C01_illformed_counterexample :
+    let a : Val String := .expr "x = ?".toList [.scalar "1", .scalar "2"] false
+    let b : Val String := .expr "x = ? AND y = ?".toList [.scalar "1"] false
+    ¬ WellFormed .qmark a ∧ ¬ Aligned (render .qmark a) ∧
+    ¬ WellFormed .qmark b ∧ String.ofList (concretize .qmark (render .qmark b).segs) = "x = ? AND y = ?" ∧ (render .qmark b).vars.length = 1 := by
+  decide
+
 /-! ### regenerated arm table of `Statement.AddVar` (extract/main.go → Gen/Misc.lean) -/
 
 /-- every arm of the type switch that appends to `stmt.Vars` calls `BindVarTo` once per append — except the
@@ -109,5 +332,51 @@ theorem C01_arms_named_only :
 
 /-- the arm table the model was transcribed from equals the one regenerated from /repo on this run -/
 theorem C01_arms_model : Bind.modelArms = Gen.addVarArms := by decide
+
+/-! ### regenerated facts about the re-templating loops and the Expr/NamedExpr dispatch (extract/gen_c01.go → Gen/BindSites.lean) -/
+
+/-- what makes a Go loop `for … { BindVarTo(&bindvar, stmt, v); sql = strings.Replace(sql, bindvar.String(), "?", 1) }`
+    an instance of the model function `retemplate d 1 k`: in iteration i the statement handed to BindVarTo has exactly
+    i vars (so a numbered dialect prints the i-th placeholder), the builder is fresh, ONE occurrence is replaced by `?`,
+    the text is threaded through -/
+def retemplateLoopOk (l : Gen.RetemplateLoop) : Bool :=
+  l.count == 1 && l.newText == "?" && (l.grows == "append1" || l.grows == "prefix") && l.reset && l.fresh && l.threads &&
+    l.replaceAfterBind
+
+/-- the re-templating loops in gorm are exactly the two the model covers (AddVar `case *DB` = `Val.rsub`;
+    genJoinClause's ON handle = the same loop followed by `clause.Expr{SQL: onSQL, Vars: vars}`), and each of them is an
+    instance of `retemplate` — to which `C01_retemplate` applies -/
+theorem C01_retemplate_sites :
+    Gen.retemplateLoops.map (fun l => (l.fn, l.file)) = [("BuildQuerySQL", "callbacks/query.go"), ("Statement.AddVar", "statement.go")] ∧
+    ∀ l ∈ Gen.retemplateLoops, retemplateLoopOk l = true := by decide
+
+/-- the conditions under which a text is handed to `clause.NamedExpr` (the only builder that resolves named arguments
+    given as sql.NamedArg, map, struct or pointer to struct) look at the TEXT (and at most at the presence of
+    arguments), never at the dynamic type of the arguments — as in the model (`buildCondStr`, `Val.rsub`, Raw/Exec) -/
+def namedDispatchOk (s : Gen.NamedDispatch) : Bool :=
+  (s.cond == "strings.Contains(" ++ s.sqlArg ++ ", \"@\")" && !s.inElse) ||
+  (s.cond == "len(args) > 0 && strings.Contains(" ++ s.sqlArg ++ ", \"@\")" && !s.inElse) ||
+  (s.cond == "strings.Count(" ++ s.sqlArg ++ ", \"@\") > 0 && len(args) > 0" && !s.inElse) ||
+  -- raw-string joins: always NamedExpr (the else branches of "is it a relation name?")
+  (s.fn == "BuildQuerySQL" && s.sqlArg == "join.Name" && s.inElse)
+
+theorem C01_named_dispatch_sites :
+    Gen.namedDispatch.map (·.fn) = ["BuildQuerySQL", "BuildQuerySQL", "DB.Raw", "DB.Select", "DB.Exec", "Statement.AddVar", "Statement.BuildCondition"] ∧
+    ∀ s ∈ Gen.namedDispatch, namedDispatchOk s = true := by decide
+
+/-- the reflect-kind switches the model transcribes: which kinds count as "a list" (`expandElems`, `Val.list`: Slice AND
+    Array) and which test keeps a byte string as ONE bound value (`Val.bytes`: the element TYPE is exactly `uint8`, so a
+    slice of a named uint8 enum type is a list of numbers, `Val.list`), empty first (`(NULL)` resp. `AddVar(nil)`) -/
+def modelKindCases : List (String × String × List String) := [
+  ("Statement.AddVar", "reflect.Slice, reflect.Array", ["rv.Len() == 0", "rv.Type().Elem() == reflect.TypeOf(uint8(0))"]),
+  ("Statement.AddVar", "default", []),
+  ("Expr.Build", "reflect.Slice, reflect.Array", ["rv.Len() == 0"]),
+  ("Expr.Build", "default", []),
+  ("NamedExpr.Build", "reflect.Struct", []),
+  ("NamedExpr.Build", "reflect.Slice, reflect.Array", ["rv.Len() == 0"]),
+  ("NamedExpr.Build", "default", [])
+]
+
+theorem C01_kind_cases_model : Gen.kindCases.map (fun k => (k.fn, k.kinds, k.conds)) = modelKindCases := by decide
 
 end Gorm
